@@ -59,6 +59,50 @@ fn pick_messages(d: &Desc, thorough: bool) -> Msgs {
     Msgs { vals: pick, s }
 }
 
+/// one message of at least ~40 bytes for shapes that can carry one (counters such as "32 writes per
+/// poll" or "64 bytes per chunk" are only reachable with a message longer than the constant)
+fn large_message(d: &Desc) -> Option<Value> {
+    fn big_tail(d: &Desc) -> Option<Value> {
+        match d {
+            Desc::Vec { elem, len } if elem.size() > 0 => {
+                let al = enum_values(elem, elem.size(), &Limits::quick());
+                let n = ((44 + elem.size() - 1) / elem.size()).min(len.max() as usize);
+                Some(Value::Vec((0..n).map(|i| al[i % al.len()].clone()).collect()))
+            }
+            Desc::Str { len } => Some(Value::Str(vec![b'q'; 44.min(len.max() as usize)])),
+            _ => None,
+        }
+    }
+    match d {
+        Desc::Vec { .. } | Desc::Str { .. } => big_tail(d),
+        Desc::Struct { fields, sized: false } => {
+            let t = big_tail(fields.last()?)?;
+            let mut v: Vec<Value> = fields[..fields.len() - 1].iter().map(|f| enum_values(f, f.size(), &Limits::quick())[0].clone()).collect();
+            v.push(t);
+            Some(Value::Struct(v))
+        }
+        Desc::Enum { variants, sized: false, .. } => {
+            for (i, fs) in variants.iter().enumerate() {
+                if let Some(t) = fs.last().and_then(big_tail) {
+                    let mut v: Vec<Value> = fs[..fs.len() - 1].iter().map(|f| enum_values(f, f.size(), &Limits::quick())[0].clone()).collect();
+                    v.push(t);
+                    return Some(Value::Enum(i, v));
+                }
+            }
+            None
+        }
+        Desc::Flex { item, .. } => big_tail(item).map(|t| Value::Flex(vec![t])),
+        _ => None,
+    }
+}
+
+fn with_policy<R>(p: usize, f: impl FnOnce() -> R) -> R {
+    CHUNK_POLICY.with(|c| c.set(p));
+    let r = f();
+    CHUNK_POLICY.with(|c| c.set(0));
+    r
+}
+
 fn sequences(m: &Msgs, max_len: usize) -> Vec<Vec<Value>> {
     let mut out: Vec<Vec<Value>> = vec![vec![]];
     let mut frontier: Vec<Vec<Value>> = vec![vec![]];
@@ -202,7 +246,7 @@ fn run_sender_blocking(s: &dyn IoShape, cap: CapSpec, seq: &[Value], kind: Kind,
 fn judge_sender(cx: &mut Ctx, mode: &str, cap: CapSpec, seq: &[Value], run: &SendRun, trace: &[(u16, u16)], faulty: bool) {
     let d = cx.d.clone();
     let blen = buf_len(cap, &d);
-    let replay = json!({"engine": "io_explore", "mode": mode, "side": "sender", "shape": cx.s.id(), "cap": format!("{:?}", cap), "seq": seq.iter().map(|v| format!("{:?}", v)).collect::<Vec<_>>(), "choices": choices_json(trace)});
+    let replay = json!({"engine": "io_explore", "policy": CHUNK_POLICY.with(|c| c.get()), "mode": mode, "side": "sender", "shape": cx.s.id(), "cap": format!("{:?}", cap), "seq": seq.iter().map(|v| format!("{:?}", v)).collect::<Vec<_>>(), "choices": choices_json(trace)});
     if let Some(p) = &run.panic {
         if p.contains(HORIZON_MSG) {
             cx.violate(format!("{}/sender/hang", mode), format!("a send did not return within the call horizon; faults {:?}; seq {:?} cap {:?}", run.injected, seq, cap), replay);
@@ -315,7 +359,7 @@ fn run_receiver_blocking(s: &dyn IoShape, cap: CapSpec, stream: &[u8], faults: &
 
 /// Healthy-pipe oracle: exactly the sent messages in order, then Closed.
 fn judge_receiver_exact(cx: &mut Ctx, mode: &str, cap: CapSpec, seq: &[Value], stream: &[u8], sizes: &[usize], run: &RecvRun, trace: &[(u16, u16)]) {
-    let replay = json!({"engine": "io_explore", "mode": mode, "side": "receiver", "shape": cx.s.id(), "cap": format!("{:?}", cap), "seq": seq.iter().map(|v| format!("{:?}", v)).collect::<Vec<_>>(), "stream": hex(stream), "choices": choices_json(trace)});
+    let replay = json!({"engine": "io_explore", "policy": CHUNK_POLICY.with(|c| c.get()), "mode": mode, "side": "receiver", "shape": cx.s.id(), "cap": format!("{:?}", cap), "seq": seq.iter().map(|v| format!("{:?}", v)).collect::<Vec<_>>(), "stream": hex(stream), "choices": choices_json(trace)});
     if let Some(p) = &run.panic {
         let key = if p.contains(HORIZON_MSG) { format!("{}/receiver/hang", mode) } else { format!("{}/receiver/panic/{}", mode, panic_site(p)) };
         cx.violate(key, format!("{} (stream {} cap {:?} after {} results)", p, hex(stream), cap, run.outs.len()), replay);
@@ -395,6 +439,83 @@ fn mode_blocking(cx: &mut Ctx) {
     }
 }
 
+/// C07 extra: a peer that trickles (default chunk 1 or 2 bytes, deviations relative to that) and a
+/// message longer than 40 bytes
+fn mode_blocking_trickle(cx: &mut Ctx) {
+    let d = cx.d.clone();
+    let msgs = pick_messages(&d, cx.thorough);
+    let mut seqs: Vec<Vec<Value>> = sequences(&msgs, 2).into_iter().filter(|s| !s.is_empty()).collect();
+    let mut s_max = msgs.s;
+    if let Some(big) = large_message(&d) {
+        let e = encode(&d, &big, 4096, 0).map(|i| i.extent).unwrap_or(0);
+        if e > 0 {
+            s_max = s_max.max(e);
+            seqs.push(vec![big.clone()]);
+            seqs.push(vec![msgs.vals[0].clone(), big.clone(), msgs.vals[0].clone()]);
+        }
+    }
+    let dev = if cx.thorough { 2 } else { 1 };
+    let max_execs = if cx.thorough { 400_000 } else { 30_000 };
+    let cap = CapSpec::Io(s_max.max(1));
+    let blen = buf_len(cap, &d);
+    for policy in if cx.thorough { vec![1usize, 2, 3] } else { vec![1usize, 2] } {
+        for seq in &seqs {
+            let (stream, _m, sizes) = stream_of(&d, seq, blen);
+            let s = cx.s;
+            let mut results: Vec<(Vec<(u16, u16)>, SendRun)> = vec![];
+            let st = with_policy(policy, || explore(Some(dev), max_execs, || run_sender_blocking(s, cap, seq, Kind::Iter, &FaultCfg::off(), s_max), |t, r| results.push((t.to_vec(), r))));
+            let mut sink = None;
+            for (t, r) in &results {
+                judge_sender(cx, "blocking", cap, seq, r, t, false);
+                if t.iter().all(|(c, _)| *c == 0) {
+                    sink = Some(r.sink.clone());
+                }
+            }
+            account(cx, &st, Some(dev), stream.len(), "trickle_sender");
+            let real = sink.filter(|x| x.len() == stream.len()).unwrap_or(stream.clone());
+            let mut rres: Vec<(Vec<(u16, u16)>, RecvRun)> = vec![];
+            let st = with_policy(policy, || explore(Some(dev), max_execs, || run_receiver_blocking(s, cap, &real, &FaultCfg::off(), true), |t, r| rres.push((t.to_vec(), r))));
+            for (t, r) in &rres {
+                judge_receiver_exact(cx, "blocking", cap, seq, &real, &sizes, r, t);
+            }
+            account(cx, &st, Some(dev), stream.len(), "trickle_receiver");
+            cx.acc.distinct.insert(format!("{}:trickle{}:{}", cx.s.id(), policy, stream.len()));
+        }
+    }
+}
+
+/// C08 extra: trickling pipe (default chunk 1 / 2) over a roomy pipe, incl. a message longer than 40 bytes
+fn mode_async_trickle(cx: &mut Ctx) {
+    let d = cx.d.clone();
+    let msgs = pick_messages(&d, cx.thorough);
+    let mut seqs: Vec<Vec<Value>> = vec![vec![msgs.vals[0].clone()], vec![msgs.vals[msgs.vals.len() - 1].clone(), msgs.vals[0].clone()]];
+    let mut s_max = msgs.s;
+    if let Some(big) = large_message(&d) {
+        let e = encode(&d, &big, 4096, 0).map(|i| i.extent).unwrap_or(0);
+        if e > 0 {
+            s_max = s_max.max(e);
+            seqs.push(vec![big.clone(), msgs.vals[0].clone()]);
+        }
+    }
+    let dev = if cx.thorough { 2 } else { 1 };
+    let max_execs = if cx.thorough { 300_000 } else { 20_000 };
+    let cap = CapSpec::Io(s_max.max(1));
+    for policy in [1usize, 2] {
+        for seq in &seqs {
+            let s = cx.s;
+            for pc in [2 * s_max.max(1), 3] {
+                let mut res: Vec<(Vec<(u16, u16)>, AsyncRun)> = vec![];
+                let st = with_policy(policy, || explore(Some(dev), max_execs, || run_async(s, cap, seq, pc, 1, &FaultCfg::off(), &FaultCfg::off()), |t, r| res.push((t.to_vec(), r))));
+                for (t, r) in &res {
+                    judge_async(cx, cap, pc, seq, r, t);
+                }
+                account(cx, &st, Some(dev), 0, "trickle_async");
+                cx.acc.distinct.insert(format!("{}:trickle{}:{}:{}", cx.s.id(), policy, pc, seq.len()));
+            }
+        }
+    }
+}
+
 fn account(cx: &mut Ctx, st: &Stats, bound: Option<usize>, stream_len: usize, side: &str) {
     cx.acc.evaluations += st.executions;
     cx.acc.transitions += st.executions;
@@ -427,7 +548,7 @@ fn run_async(s: &dyn IoShape, cap: CapSpec, seq: &[Value], pipe_cap: usize, spur
     let sends: Rc<RefCell<Vec<(usize, SendOut, usize, usize)>>> = Rc::new(RefCell::new(vec![]));
     let recvs: Rc<RefCell<Vec<RecvOut>>> = Rc::new(RefCell::new(vec![]));
     let total: usize = seq.len();
-    let horizon = 64 + 8 * (seq.len() + 1) * 48;
+    let horizon = 64 + 8 * (seq.len() + 1) * 48 + 40 * seq.len() * 16;
     let r = catch(|| {
         let (p1, p2, s1, r1) = (pipe.clone(), pipe.clone(), sends.clone(), recvs.clone());
         let pw = pipe.clone();
@@ -496,7 +617,7 @@ fn judge_async(cx: &mut Ctx, cap: CapSpec, pipe_cap: usize, seq: &[Value], run: 
     let d = cx.d.clone();
     let blen = buf_len(cap, &d);
     let (stream, mask, sizes) = stream_of(&d, seq, blen);
-    let replay = json!({"engine": "io_explore", "mode": "async", "shape": cx.s.id(), "cap": format!("{:?}", cap), "pipe_cap": pipe_cap, "seq": seq.iter().map(|v| format!("{:?}", v)).collect::<Vec<_>>(), "choices": choices_json(trace)});
+    let replay = json!({"engine": "io_explore", "policy": CHUNK_POLICY.with(|c| c.get()), "mode": "async", "shape": cx.s.id(), "cap": format!("{:?}", cap), "pipe_cap": pipe_cap, "seq": seq.iter().map(|v| format!("{:?}", v)).collect::<Vec<_>>(), "choices": choices_json(trace)});
     if let Some(p) = &run.panic {
         cx.violate(format!("async/panic/{}", panic_site(p)), format!("panic: {} (seq {:?} cap {:?} pipe {})", p, seq, cap, pipe_cap), replay);
         return;
@@ -648,7 +769,7 @@ fn mode_fault(cx: &mut Ctx) {
     let d = cx.d.clone();
     let msgs = pick_messages(&d, cx.thorough);
     let seqs: Vec<Vec<Value>> = sequences(&msgs, 2).into_iter().filter(|s| !s.is_empty()).collect();
-    let kinds = if cx.thorough { vec![io::ErrorKind::Other, io::ErrorKind::Interrupted, io::ErrorKind::WouldBlock, io::ErrorKind::BrokenPipe] } else { vec![io::ErrorKind::Other, io::ErrorKind::Interrupted] };
+    let kinds = if cx.thorough { vec![io::ErrorKind::Other, io::ErrorKind::Interrupted, io::ErrorKind::WouldBlock, io::ErrorKind::BrokenPipe] } else { vec![io::ErrorKind::Other, io::ErrorKind::Interrupted, io::ErrorKind::WouldBlock] };
     let fc = FaultCfg { enabled: true, kinds, budget: if cx.thorough { 3 } else { 2 } };
     let dev = if cx.thorough { 3 } else { 2 };
     let max_execs = if cx.thorough { 3_000_000 } else { 80_000 };
@@ -1057,8 +1178,14 @@ fn main() {
                 report::journal(format!("io_explore mode={} shape={}", mode, s.id()).as_bytes());
                 let mut cx = Ctx { s, d: s.desc(), thorough: args.thorough(), acc: PropAcc::default(), prop };
                 match mode.as_str() {
-                    "blocking" => mode_blocking(&mut cx),
-                    "async" => mode_async(&mut cx),
+                    "blocking" => {
+                        mode_blocking(&mut cx);
+                        mode_blocking_trickle(&mut cx);
+                    }
+                    "async" => {
+                        mode_async(&mut cx);
+                        mode_async_trickle(&mut cx);
+                    }
                     "fault" => mode_fault(&mut cx),
                     _ => mode_hostile(&mut cx),
                 }
@@ -1108,16 +1235,21 @@ fn replay_case(shapes: &[&'static dyn IoShape], case: &serde_json::Value) -> i32
     for th in [false, true] {
         pool.extend(pick_messages(&d, th).vals);
     }
+    pool.extend(large_message(&d));
+    CHUNK_POLICY.with(|c| c.set(case["policy"].as_u64().unwrap_or(0) as usize));
     let seq: Vec<Value> = case["seq"].as_array().map(|a| a.iter().filter_map(|x| pool.iter().find(|v| format!("{:?}", v) == x.as_str().unwrap_or("")).cloned()).collect()).unwrap_or_default();
     let thorough = true;
-    let msgs = pick_messages(&d, thorough);
+    let mut msgs = pick_messages(&d, thorough);
+    if let Some(big) = large_message(&d) {
+        msgs.s = msgs.s.max(encode(&d, &big, 4096, 0).map(|i| i.extent).unwrap_or(0));
+    }
     let kinds = vec![io::ErrorKind::Other, io::ErrorKind::Interrupted, io::ErrorKind::WouldBlock, io::ErrorKind::BrokenPipe];
     let mut verdicts = vec![];
     for round in 0..2 {
         let mut cx = Ctx { s, d: d.clone(), thorough, acc: PropAcc::default(), prop: "replay" };
         // the fault alphabet of the tier that recorded the case is recovered from the arities
-        let fc_for = |q: bool| FaultCfg { enabled: true, kinds: if q { kinds[..2].to_vec() } else { kinds.clone() }, budget: if q { 2 } else { 3 } };
-        let quick_alpha = choices.iter().any(|(_, a)| *a == 6);
+        let fc_for = |q: bool| FaultCfg { enabled: true, kinds: if q { kinds[..3].to_vec() } else { kinds.clone() }, budget: if q { 2 } else { 3 } };
+        let quick_alpha = choices.iter().any(|(_, a)| *a == 7);
         let fc = fc_for(quick_alpha);
         match (mode.as_str(), side.as_str()) {
             ("blocking", "sender") | ("fault", "sender") => {
